@@ -75,7 +75,7 @@ fn base_ctx() -> MCtx {
     m.insert("i".into(), V::Int(0));
     m.insert("s".into(), V::Bytes(b"a".to_vec()));
     m.insert("ip".into(), V::Ip("1.2.3.4".parse().unwrap()));
-    for b in ["t", "u", "v", "w", "x"] {
+    for b in ["t", "u", "v", "w", "x", "y"] {
         m.insert(b.into(), V::Bool(false));
     }
     m
@@ -175,7 +175,7 @@ pub fn run(tier: Tier, seed: u64) -> i32 {
 
             // ---- (b) structure layer ---------------------------------------------------
             let max_ops = tier.pick(4usize, 5usize);
-            let props = ["t", "u", "v", "w", "x"];
+            let props = ["t", "u", "v", "w", "x", "y"];
             for k in 1..=max_ops {
                 let n = k + 1;
                 // all assignments of {absent?, true, false} to the n propositions
